@@ -133,12 +133,59 @@ def check_msg(d, conts, t2, data_as='list'):
     return out
 
 
+CODEC_FILES = ('mido/messages/encode.py', 'mido/messages/decode.py', 'mido/messages/messages.py', 'mido/messages/checks.py')
+
+
+def check_threads(case):
+    """The codec is a set of pure functions: two threads converting different messages get the results the reference
+    gives for each, wherever the thread switch falls (statement granularity inside the codec modules)."""
+    from lib.sched import run_threads
+    da, db = case['a'], case['b']
+
+    def worker(d):
+        def body():
+            m = mido.Message(d['type'], **{k: v for k, v in d.items() if k != 'type'})
+            raw = m.bytes()
+            back = mido.Message.from_bytes(R.ref_encode(d), time=d['time'])
+            return raw, back, m.hex()
+        return body
+    results, errors, steps, reason = run_threads(CODEC_FILES, [worker(da), worker(db)], schedule=case.get('sched'),
+                                                 first=case.get('first', 0))
+    LAST_STEPS[0] = steps
+    out = []
+    if reason:
+        raise RuntimeError(f'scheduler: {reason}')
+    for i, d in enumerate((da, db)):
+        if errors[i] is not None:
+            out.append(fail('threads-raise', f'thread {i} converting {d}: {errors[i]!r}', exc=exc_sig(errors[i])))
+            continue
+        raw, back, hx = results[i]
+        want = R.ref_encode(d)
+        expect = dict(d)
+        if 'data' in expect:
+            expect['data'] = tuple(expect['data'])
+        if raw != want or hx != ' '.join(f'{b:02X}' for b in want):
+            out.append(fail('threads-encode', f'thread {i}: {d} encoded as {raw} / {hx!r}, expected {want} '
+                                              f'(other thread was converting {(db, da)[i]})', type=d['type']))
+        why = R.same_message(back, expect)
+        if why:
+            out.append(fail('threads-decode', f'thread {i}: bytes of {d} decoded as {back!r}: {why}', type=d['type']))
+    return out
+
+
+LAST_STEPS = [0]
+
+
 def run_case(case):
+    if case.get('kind') == 'threads':
+        return check_threads(case)
     return check_msg(case['msg'], case.get('conts', CONTAINERS), case.get('t2', case['msg']['time']),
                      case.get('data_as', 'list'))
 
 
 def nontrivial(case):
+    if case.get('kind') == 'threads':
+        return bool(case.get('sched'))
     d = case['msg']
     return any(d[n] != R.DEFAULTS[n] and not (n == 'data' and len(d[n]) == 0) for n in d if n not in ('type', 'time'))
 
@@ -173,6 +220,8 @@ def enum_shard(rec, shard):
         d.update(zip(names, vals))
         tm = times[i % len(times)]
         i += 1
+        if not rec.keep(i, 23):
+            continue
         d['time'] = tm
         fs = check_msg(d, conts, tm)
         rec.evals += 1
@@ -184,6 +233,33 @@ def enum_shard(rec, shard):
             rec.evals -= 1
     if i and len(rec.samples) < 1:
         rec.samples.append({'msg': d, 'conts': list(conts), 't2': tm})
+
+
+def thread_shard(rec, shard):
+    """Two threads, same message type, different contents: every placement of one preemption (both start orders)."""
+    t, = shard
+    a = R.default_msg(t)
+    b = R.default_msg(t)
+    for n in R.attr_names(t):
+        if n == 'data':
+            a['data'], b['data'] = [1, 2, 3], [4, 5]
+        elif n == 'pitch':
+            a[n], b[n] = -1, 100
+        elif n == 'pos':
+            a[n], b[n] = 300, 5
+        elif n in ('frame_type', 'frame_value'):
+            a[n], b[n] = 1, 2
+        else:
+            a[n], b[n] = 1, 2
+    if a == b:
+        return              # no parameters: nothing to mix up
+    for first in (0, 1):
+        base = {'kind': 'threads', 'a': a, 'b': b, 'sched': [], 'first': first}
+        rec.check(base, sample=False)
+        steps = LAST_STEPS[0]
+        for i in range(steps):
+            rec.check({'kind': 'threads', 'a': a, 'b': b, 'sched': [[i, 1]], 'first': first}, distinct=True,
+                      sample=(i == 7 and first == 0), classes=('threads',))
 
 
 def main(ctx):
@@ -207,6 +283,7 @@ def main(ctx):
         'data_as': st.sampled_from(['list', 'tuple', 'bytes', 'bytearray', 'generator']),
     })
     ctx.hyp(strat2, n // 4, label='sysex', seed_offset=1)
+    ctx.pmap('thread_shard', [(t,) for t in R.ALL_TYPES])
     if ctx.tier == 'thorough':
         for size in (10000, 100000):
             d = {'type': 'sysex', 'data': [(i * 7) % 128 for i in range(size)], 'time': 0}
